@@ -33,6 +33,10 @@ type Case struct {
 	Params   *string  `json:"params"`           // nil = absent
 	RetErr   bool     `json:"ret_err,omitempty"`
 	RetValue string   `json:"ret_value,omitempty"`
+	// History: what was done to the FuncInfo before the settings above were
+	// applied and the handler under test was made: "wrap" (a handler is made and
+	// thrown away), "strict:true|false", "array:true|false".  The last setting wins.
+	History []string `json:"history,omitempty"`
 }
 
 type ctxKey struct{}
@@ -290,12 +294,25 @@ func run(_ *testing.T, c Case) (v engine.Verdict) {
 	if err != nil {
 		return engine.Verdict{NonTrivial: c.Fn.Shape != "nil" && c.Fn.Shape != "nonfunc", Labels: []string{"rejected:" + c.Fn.Shape}}
 	}
-	strict := c.Strict == "true"
-	allowArray := c.Array != "false"
+	strict, allowArray := false, true
+	for _, op := range c.History {
+		switch op {
+		case "wrap":
+			_ = fi.Wrap()
+		case "strict:true", "strict:false":
+			strict = op == "strict:true"
+			fi.SetStrict(strict)
+		case "array:true", "array:false":
+			allowArray = op == "array:true"
+			fi.AllowArray(allowArray)
+		}
+	}
 	if c.Strict != "" {
+		strict = c.Strict == "true"
 		fi.SetStrict(strict)
 	}
 	if c.Array != "" {
+		allowArray = c.Array != "false"
 		fi.AllowArray(allowArray)
 	}
 	req := makeRequest(c.Params)
@@ -548,6 +565,11 @@ func genCase(t *rapid.T) Case {
 	}
 	c.Strict = rapid.SampledFrom([]string{"", "", "true", "false"}).Draw(t, "strict")
 	c.Array = rapid.SampledFrom([]string{"", "", "true", "false"}).Draw(t, "array")
+	if rapid.IntRange(0, 3).Draw(t, "hist") == 0 {
+		for i, n := 0, rapid.IntRange(1, 4).Draw(t, "nhist"); i < n; i++ {
+			c.History = append(c.History, rapid.SampledFrom([]string{"wrap", "wrap", "strict:true", "strict:false", "array:true", "array:false"}).Draw(t, "hop"))
+		}
+	}
 	c.Params = genParams(t, c.Fn.Arg)
 	c.RetErr = rapid.IntRange(0, 3).Draw(t, "reterr") == 0
 	if c.Fn.Result != nil {
